@@ -1,10 +1,10 @@
 (** * HTLC: a concrete case built from the model's own observations (non-vacuity of
-    [model_passes_check]): the 13-operation history of [Examples.v], 5 actors, 5 denoms. *)
+    [model_passes_check]): the history of [Examples.v] with its three parameter-change steps (16 operations), 5 actors, 5 denoms. *)
 From Irismod Require Import Htlc.Model Htlc.Check Htlc.Proofs Htlc.Sound Htlc.Passes Htlc.Examples.
 
 Definition model_obs (k : case) (nd : nat) (s : state) (code : Z) : obs :=
   mkObs code (st_height s) (st_time s) (cproj k s) (qproj k s) (mat (accounts k) nd (bal (st_bank s)))
-        (sproj_assets k s) (bsproj k s) (st_prev s).
+        (sproj_assets k s) (bsproj k s) (st_prev s) (st_params s).
 
 (** the diff that rewrites every entry *)
 Definition full_diff (o : obs) : dobs :=
@@ -14,7 +14,8 @@ Definition full_diff (o : obs) : dobs :=
       (flat_map (fun rr : Z * list Z => map (fun cv : Z * Z => (fst rr, fst cv, snd cv)) (combine (zseq (length (snd rr))) (snd rr)))
                 (combine (zseq (length (o_bals o))) (o_bals o)))
       (combine (zseq (length (o_sups o))) (o_sups o))
-      (combine (zseq (length (o_bsups o))) (o_bsups o)).
+      (combine (zseq (length (o_bsups o))) (o_bsups o))
+      (Some (o_params o)).
 
 Fixpoint mk_steps (k : case) (nd : nat) (s : state) (cops : list cop) : list (cop * dobs) :=
   match cops with
@@ -31,6 +32,7 @@ Definition exCops : list cop :=
     CCreate 1 (mkCreate 3 0 [(0, 200)] (8, ts0) ts0 50 true);
     CClaim 0 1 8;
     CCreate 2 (mkCreate 0 3 [(0, 50)] (9, ts0) ts0 50 true);
+    CSetParams GOV exRaise; CSetParams 0 exBadCut; CSetParams GOV exInvalid;
     CCreate 2 (mkCreate 0 3 [(0, 50)] (9, ts0) ts0 60 true);
     CCreate 3 (mkCreate 1 0 [(4, 30)] (10, 0) 0 50 false);
     CAdvN 49 ns;
@@ -38,7 +40,7 @@ Definition exCops : list cop :=
     CAdv [ns];
     CClaim 3 2 9 ].
 
-Definition exK0 : case := mkCase exP 5 exIds (mkObs 0 0 0 [] [] [] [] [] 0) [].
+Definition exK0 : case := mkCase exP 5 exIds (mkObs 0 0 0 [] [] [] [] [] 0 []) [].
 Definition exObs0 : obs := model_obs exK0 5 (init exP exB (ts0 * ns)) 0.
 Definition exK1 : case := mkCase exP 5 exIds exObs0 [].
 Definition exCase : case := mkCase exP 5 exIds exObs0 (mk_steps exK1 5 (case_init exK1) exCops).
@@ -48,7 +50,7 @@ Definition Vw_b (k : case) (nd : nat) (s : state) (code : Z) (o : obs) : bool :=
   (o_code o =? code) && (o_height o =? st_height s) && (o_time o =? st_time s) && (o_prev o =? st_prev s)
   && eqb (o_contracts o) (cproj k s) && eqb (o_queue o) (qproj k s)
   && eqb (o_bals o) (mat (accounts k) nd (bal (st_bank s)))
-  && eqb (o_sups o) (sproj_assets k s) && eqb (o_bsups o) (bsproj k s).
+  && eqb (o_sups o) (sproj_assets k s) && eqb (o_bsups o) (bsproj k s) && eqb (o_params o) (st_params s).
 
 Lemma Vw_b_sound k nd s code o : Vw_b k nd s code o = true -> Vw k nd s code o.
 Proof.
